@@ -107,7 +107,7 @@ def nontrivial(feats, src):
 
 def plan(tier):
     n = 50 if tier == "quick" else 2500
-    return [(f"gen-{i}", {"n": n}) for i in range(16)] + [(f"typeflow-{i}", {"n": 40 if tier == "quick" else 1500}) for i in range(8)]
+    return [(f"gen-{i}", {"n": n}) for i in range(16)] + [(f"typeflow-{i}", {"n": 100 if tier == "quick" else 1500}) for i in range(8)]
 
 
 def run_typeflow(name, seed, tier, n):
